@@ -6,6 +6,7 @@
 #include "codec.hpp"
 #include "tcpmodel.hpp"
 #include "simclock.hpp"
+#include "ledger.hpp"
 #include <tins/tins.h>
 #include <tins/tcp_ip/stream_follower.h>
 #include <tins/tcp_ip/ack_tracker.h>
@@ -178,7 +179,10 @@ struct TcpEngine : Engine {
         finish_tap(w, false);
         enforce_handshake_first(w);
         p.truth.push_back(c.line());
-        for (auto& r : w.tap) p.steps.push_back(step_line(r));
+        // fault: memory pressure - a large allocation (the growing payload vector) made while the stand-alone Flow handles a frame fails with bad_alloc;
+        // the application catches it and the same segment is handed over again (the peer's retransmission)
+        Rng af = root.fork("allocfail"); const bool allocfail = af.chance(0.2); p.cfg.set("allocfail", allocfail ? 1 : 0);
+        for (auto& r : w.tap) { std::string sl = step_line(r); if (allocfail && af.chance(0.08)) { KV k(sl); k.set("af", (int64_t)af.range(1, 2)); sl = k.line(); } p.steps.push_back(sl); }
         for (auto& f : w.faults) p.cfg.set(f.first, (int64_t)f.second);
         return p;
     }
@@ -286,7 +290,7 @@ struct TcpEngine : Engine {
         if (!hs_ok) { use_follower = false; use_legacy = false; }
         for (auto& kv : p.cfg.v) if (kv.first.compare(0, 6, "fault.") == 0) st.ctr[kv.first] += strtoull(kv.second.c_str(), 0, 10);
         RefDir ref[2]; for (int d = 0; d < 2; ++d) ref[d].init(c.isn[d] + 1, &c.data[d]);
-        const int64_t skipat = p.cfg.num("skipat", -1); const int skipdir = (int)p.cfg.num("skipdir", 0); const uint32_t skipby = (uint32_t)p.cfg.num("skipby", 1); bool skipped[2] = { false, false }; uint32_t skip_seq[2] = { 0, 0 };
+        const int64_t skipat = p.cfg.num("skipat", -1); const int skipdir = (int)p.cfg.num("skipdir", 0); const uint32_t skipby = (uint32_t)p.cfg.num("skipby", 1); bool skipped[2] = { false, false }, degraded[2] = { false, false }; uint32_t skip_seq[2] = { 0, 0 };
         // (A) stand-alone Flow per direction
         FlowSut fs[2];
         for (int d = 0; d < 2; ++d) {
@@ -294,9 +298,9 @@ struct TcpEngine : Engine {
             if (c.addr[0].is6()) fs[d].flow = new Tins::TCPIP::Flow(Tins::IPv6Address(c.addr[1 - d].b), c.port[1 - d], start);
             else fs[d].flow = new Tins::TCPIP::Flow(Tins::IPv4Address(Tins::Endian::be_to_host(get32(c.addr[1 - d].b)) ), c.port[1 - d], start);
             fs[d].cleanup = cleanup; FlowSut* self = &fs[d];
-            fs[d].flow->out_of_order_callback([self](Tins::TCPIP::Flow&, uint32_t seq, const Tins::TCPIP::Flow::payload_type& pl) { ++self->ooo_calls; self->ooo_seq = seq; self->ooo_payload = pl; });
+            fs[d].flow->out_of_order_callback([self](Tins::TCPIP::Flow&, uint32_t seq, const Tins::TCPIP::Flow::payload_type& pl) { ledger::Unscope app; ++self->ooo_calls; self->ooo_seq = seq; self->ooo_payload = pl; });
             fs[d].flow->data_callback([self](Tins::TCPIP::Flow& f) {
-                ++self->callbacks;
+                ledger::Unscope app; ++self->callbacks;
                 if (self->cleanup) { self->delivered.insert(self->delivered.end(), f.payload().begin(), f.payload().end()); f.payload().clear(); }
             });
         }
@@ -343,14 +347,22 @@ struct TcpEngine : Engine {
                 // the out-of-order callback fires exactly for a data segment that lies wholly before the delivery point or starts beyond it, with that segment
                 const size_t ooo0 = f.ooo_calls; const int64_t off0 = (int64_t)seq_diff(d.tcp.seq, ref[dir].base + (uint32_t)k_before); const size_t plen = d.tcp.payload.size();
                 const bool expect_ooo = !(d.tcp.flags & TH_SYN) && plen > 0 && (off0 > 0 || off0 + (int64_t)plen < 0);
-                f.flow->process_packet(*pdu);
-                if (skipped[dir]) {      // model-free invariants only
-                    st.inc("chk.flow_after_skip"); uint64_t held = 0; for (auto& ch : f.flow->buffered_payload()) { held += ch.second.size(); if (seq_diff(ch.first, f.flow->sequence_number()) <= 0) return Verdict::bad("flow:stale-buffered", fmt("after advance_sequence: chunk at seq %u (len %zu) is at or below the delivery point %u", ch.first, ch.second.size(), f.flow->sequence_number()), idx); }
+                const int64_t af = k.num("af", 0); bool alloc_failed = false;
+                if (af > 0) { ledger::fail_min_size = 128; ledger::fail_countdown = af; try { SUT(f.flow->process_packet(*pdu)); } catch (std::bad_alloc&) { alloc_failed = true; st.inc("fault.allocation_failed_inside_flow"); } ledger::fail_countdown = 0; ledger::fail_min_size = 0;
+                    // after a failure part-way the tracker may hold appended bytes it has not announced and a chunk at the delivery point it has not appended yet (both
+                    // surface with the next segment that is not stale): from here on this direction is judged for safety only - what it delivers is a prefix of the
+                    // stream and never more than has arrived - plus the counter invariant; maximality is no longer demanded
+                    if (alloc_failed) { any_fault = true; std::unique_ptr<Tins::PDU> again(parse(frame)); f.flow->process_packet(*again); if (!degraded[dir] && !skipped[dir]) skip_seq[dir] = ref[dir].base; degraded[dir] = true; } }
+                else f.flow->process_packet(*pdu);
+                if (skipped[dir] || degraded[dir]) {      // model-free invariants only
+                    if (degraded[dir] && !skipped[dir]) { st.inc("chk.flow_after_allocation_failure"); const std::vector<uint8_t>& gd = cleanup ? f.delivered : f.flow->payload();
+                        if (gd.size() > ref[dir].k || (!gd.empty() && memcmp(gd.data(), c.data[dir].data(), gd.size()) != 0)) return Verdict::bad(gd.size() > ref[dir].k ? "flow:delivered-beyond-arrived" : "flow:delivered-not-a-prefix", fmt("dir %d, after an allocation failure inside the flow and the segment's retransmission: %zu bytes delivered, %zu arrived in order", dir, gd.size(), ref[dir].k), idx); }
+                    st.inc("chk.flow_after_skip"); uint64_t held = 0; for (auto& ch : f.flow->buffered_payload()) { held += ch.second.size(); if (!degraded[dir] && seq_diff(ch.first, f.flow->sequence_number()) <= 0) return Verdict::bad("flow:stale-buffered", fmt("after advance_sequence: chunk at seq %u (len %zu) is at or below the delivery point %u", ch.first, ch.second.size(), f.flow->sequence_number()), idx); }
                     if (held != (uint64_t)f.flow->total_buffered_bytes()) return Verdict::bad("flow:accounting", fmt("after advance_sequence: total_buffered_bytes()=%u but chunks hold %llu bytes", (unsigned)f.flow->total_buffered_bytes(), (unsigned long long)held), idx);
                     if (seq_diff(f.flow->sequence_number(), skip_seq[dir]) < 0) return Verdict::bad("flow:sequence-number", "delivery point moved backwards after advance_sequence", idx); skip_seq[dir] = f.flow->sequence_number();
                 } else {
                 st.inc("chk.out_of_order_callback"); if (expect_ooo) st.inc("probe.out_of_order_callback_expected");
-                if (f.ooo_calls - ooo0 != (expect_ooo ? 1u : 0u)) return Verdict::bad("flow:out-of-order-callback", fmt("dir %d: segment at offset %lld (len %zu) relative to the delivery point: out-of-order callback fired %zu times, expected %d", dir, (long long)off0, plen, f.ooo_calls - ooo0, expect_ooo ? 1 : 0), idx);
+                if (alloc_failed) { /* the segment was handed over twice */ } else if (f.ooo_calls - ooo0 != (expect_ooo ? 1u : 0u)) return Verdict::bad("flow:out-of-order-callback", fmt("dir %d: segment at offset %lld (len %zu) relative to the delivery point: out-of-order callback fired %zu times, expected %d", dir, (long long)off0, plen, f.ooo_calls - ooo0, expect_ooo ? 1 : 0), idx);
                 if (expect_ooo && (f.ooo_seq != d.tcp.seq || f.ooo_payload != d.tcp.payload)) return Verdict::bad("flow:out-of-order-callback", "out-of-order callback reported another sequence number or payload than the segment's", idx);
                 const std::vector<uint8_t>& got = cleanup ? f.delivered : f.flow->payload();
                 st.inc("chk.flow");
